@@ -25,6 +25,14 @@ mod trees;
 use out::J;
 use std::collections::HashMap;
 
+pub fn trees_gcd(a: usize, b: usize) -> usize {
+    if b == 0 {
+        a
+    } else {
+        trees_gcd(b, a % b)
+    }
+}
+
 pub struct Args {
     pub cmd: String,
     pub opts: HashMap<String, String>,
